@@ -58,11 +58,17 @@ THEOREMS = [
     "Cotengra.C19.strip_invariant",
     "Cotengra.C19.strip_root_exact",
     "Cotengra.C19.strip_root_exact_real",
+    "Cotengra.C19.nonzero_result_no_zero_factor",
+    "Cotengra.C19.check_zero_exit_sound",
+    "Cotengra.C19.strip_exact_of_nonzero",
+    "Cotengra.C19.strip_exact_of_nonzero_real",
+    "Cotengra.C19.sliced_exact_check_zero",
+    "Cotengra.C19.sliced_nan_counterexample",
     "Cotengra.C19.add_stripped_exact",
     "Cotengra.C19.add_stripped_exact_real",
     "Cotengra.C19.sum_stripped_exact",
     "Cotengra.C19.gather_stripped_exact",
-    "Cotengra.C19.sliced_exact",
+    "Cotengra.C19.sliced_exact_partial",
     "Cotengra.C19.magnitude_bound_normalised",
     "Cotengra.C19.magnitude_bound_step",
     "Cotengra.C19.magnitude_bound_real",
@@ -129,7 +135,8 @@ def gen_case(rng, tier, stream=None):
     if stream == "extreme" and rng.random() < 0.5:
         sign = rng.choice([-1, 1])
         scales = [sign * abs(s) if s else sign * 50 for s in scales]     # all huge or all tiny
-    vals = (1, 1, 2, 4, -1, -2, 3, 0) if stream != "moderate" else (1, 2, 3, -1, -3, 5, 0)
+    vals = (1, 1, 2, 4, -1, -2, 3, 1, 2, -4, 1, 2, 0) if stream != "moderate" else \
+        (1, 2, 3, -1, -3, 5, 2, 1, 0)
     arrays = []
     for t in net.inputs:
         size = 1
@@ -283,6 +290,8 @@ def oracle(net, out_inds, got_m, got_e, ref, refabs):
             return f"entry {key}: got {g!r} (normalised), want {float(r / R)!r}, tol {tol:.3g}"
         if abs(r) == R:
             worst = key
+    if refabs[worst] > 10 ** 5 * R:
+        return None       # the largest entry is itself the result of heavy cancellation: ill-conditioned
     g = float(m[worst])
     if g == 0.0 or (g > 0) != (ref[worst] > 0):
         return f"sign of the largest entry {worst}"
@@ -373,12 +382,28 @@ def check_case(ctx, drv, case, corr=True):
     # exact value of every slice (which slices are identically zero?)
     nsl = tree.nslices
     zero_slices = []
+    cond = {}
     if sliced:
+        exact_abs = abs_arrays(exact)
         for i in range(nsl):
             _, fixed = slice_arrays_exact(tree, net, exact, i)
             _, r_i = refimpl.dense_einsum(net.inputs, net.output, net.sizes, exact, fixed=fixed)
-            if not any(v != 0 for v in r_i.values()):
+            _, ra_i = refimpl.dense_einsum(net.inputs, net.output, net.sizes, exact_abs, fixed=fixed)
+            top = max([abs(v) for v in r_i.values()], default=0)
+            topa = max([abs(v) for v in ra_i.values()], default=0)
+            cond[i] = float(top / topa) if topa else 0.0
+            if top == 0:
                 zero_slices.append(i)
+            elif cond[i] < 1e-9:
+                # the exact value of the slice is rounding noise of the float inputs (complete
+                # cancellation): in floating point it can vanish exactly, in one evaluation order
+                # or another, and then behaves like a zero-valued slice (0/0)
+                zero_slices.append(i)
+                ctx.count("noise_slice")
+    else:
+        top = max([abs(v) for v in ref.values()], default=0)
+        topa = max([abs(v) for v in refabs.values()], default=0)
+        cond[0] = float(top / topa) if topa else 0.0
     ctx.count("zero_slices:%s" % ("some" if zero_slices else "none"))
     ctx.count("result:%s" % ("nonzero" if nonzero else "zero"))
     maxs = max(abs(s) for s in case["scales"])
@@ -420,7 +445,7 @@ def check_case(ctx, drv, case, corr=True):
     # ---- correspondence with the exact-rational model ---------------------------------------------
     steps, leaves_inds, contractions = model_program(tree, net, case)
     per_slice = []
-    all_ok = True
+    garbage = False
     ckw = {k: v for k, v in kw.items()}
     for i in range(nsl):
         ex_i, _ = slice_arrays_exact(tree, net, exact, i) if sliced else (exact, {})
@@ -441,6 +466,13 @@ def check_case(ctx, drv, case, corr=True):
             return ok
         m_i, e_i = res_i
         rs = status_of(m_i, e_i)
+        if 0.0 < cond.get(i, 1.0) < 1e-6:
+            # the slice value is rounding noise (cancellation): exact and float arithmetic
+            # legitimately differ in every digit; nothing to compare
+            ctx.count("ill_conditioned_slice")
+            garbage = True
+            per_slice.append({"status": "skip"})
+            continue
         if ms == "ok":
             if rs != "ok":
                 ctx.corr_broken(f"slice {i}: model ok, real {rs}", case)
@@ -460,49 +492,68 @@ def check_case(ctx, drv, case, corr=True):
             F = Fraction(1)
             for f in facs:
                 F *= f
-            per_slice.append({"m": {"inds": resp["mantissa"]["inds"], "data": resp["mantissa"]["data"]},
+            per_slice.append({"status": "ok",
+                              "m": {"inds": resp["mantissa"]["inds"], "data": resp["mantissa"]["data"]},
                               "f": frac_str(F)})
             ctx.count("steps_normalised", len(facs))
-        else:
-            all_ok = False
-            want = {"zero": ("zero",), "nan": ("nan",)}.get(ms, ())
-            if rs not in want:
-                # exact zero by cancellation may be float garbage: only an alarm if the garbage is large
+        elif ms in ("zero", "nan"):
+            per_slice.append({"status": ms})
+            if rs != ms:
+                # an exact zero reached by cancellation may be float garbage instead of 0.0
                 ctx.count("cancellation_garbage")
+                garbage = True
                 if rs != "ok":
                     ctx.corr_broken(f"slice {i}: model {ms}, real {rs}", case)
                     return ok
-    # whole sliced contraction: common exponent and chunks
-    if sliced and all_ok and st == "ok" and status_of(*res) == "ok":
+        else:
+            ctx.corr_broken(f"slice {i}: model status {ms}", case)
+            return ok
+    # whole sliced contraction: status, common exponent and chunks
+    if sliced and not garbage:
         out_pos = [ix for ix in net.output if ix in sliced]
-        # chunk key of slice i, in the order gather_slices builds them (first appearance)
         chunks = {}
         for i in range(nsl):
             key_slice = tree.slice_key(i)
             key = tuple(key_slice[gen.sym(ix)] for ix in out_pos)
             chunks.setdefault(key, []).append(per_slice[i])
-        g = drv.call("c19.gather", chunks=list(chunks.values()))
+        g = drv.call("c19.gatherres", chunks=list(chunks.values()))
         if "error" in g:
             ctx.corr_broken("driver error: " + g["error"], case)
             return ok
-        m, e = res
-        Fm = parse_frac(g["f"])
-        if abs(log10_frac(Fm) - float(e)) > 1e-7:
-            ctx.corr_broken(f"gathered exponent {float(e)!r} vs model {log10_frac(Fm)!r}", case)
-            return ok
-        marr = np.asarray(m, dtype=np.float64)
-        for key, ch in zip(chunks.keys(), g["chunks"]):
-            sel = []
-            kit = iter(key)
-            for ix in net.output:
-                sel.append(next(kit) if ix in sliced else slice(None))
-            got = marr[tuple(sel)].reshape(-1)
-            want = [float(parse_frac(s)) for s in ch["data"]]
-            if len(want) != got.shape[0] or any(abs(a - b) > 1e-7 for a, b in zip(want, got)):
-                ctx.corr_broken(f"gathered chunk {key} differs from the model's", case)
-                return ok
         ctx.traces += 1
-        ctx.count("gather_compared")
+        ctx.count("gather_model_status:" + g["status"])
+        if st == "exception":
+            ctx.corr_broken(f"tree.contract raises {res}; the model gathers to status {g['status']}", case)
+            return ok
+        m, e = res
+        rs = status_of(m, e)
+        if rs != g["status"]:
+            ctx.corr_broken(f"tree.contract returns a {rs} result; the model gathers to {g['status']}", case)
+            return ok
+        if rs == "ok":
+            Fm = parse_frac(g["f"])
+            if abs(log10_frac(Fm) - float(e)) > 1e-7:
+                ctx.corr_broken(f"gathered exponent {float(e)!r} vs model {log10_frac(Fm)!r}", case)
+                return ok
+            marr = np.asarray(m, dtype=np.float64)
+            for key, ch in zip(chunks.keys(), g["chunks"]):
+                sel = []
+                kit = iter(key)
+                for ix in net.output:
+                    sel.append(next(kit) if ix in sliced else slice(None))
+                got = marr[tuple(sel)].reshape(-1)
+                want = [float(parse_frac(s)) for s in ch["data"]]
+                if len(want) != got.shape[0] or any(abs(a - b) > 1e-7 for a, b in zip(want, got)):
+                    ctx.corr_broken(f"gathered chunk {key} differs from the model's", case)
+                    return ok
+            ctx.count("gather_compared")
+            # the all-finite case also through `rescaleChunks` (the function of gather_stripped_exact)
+            if all(p["status"] == "ok" for p in per_slice):
+                g2 = drv.call("c19.gather", chunks=[[{"m": p["m"], "f": p["f"]} for p in c]
+                                                    for c in chunks.values()])
+                if g2.get("f") != g["f"] or [c["data"] for c in g2.get("chunks", [])] != \
+                        [c["data"] for c in g["chunks"]]:
+                    ctx.corr_broken("gatherRes and rescaleChunks disagree on finite chunks", case)
     return ok
 
 
